@@ -79,8 +79,16 @@ type vbroker struct {
 	lastTagOf  []int // per connection: id -> tag is looked up from attempts
 	events     bool
 	silentAll  bool // broker stops answering PINGREQ (C13)
+	silentArmed bool
 	noCuts     bool // only the "drop" fault is offered
 	allowGarbage bool
+	clients    []*BaseClient
+	states     [][]ConnState
+	stateErrs  [][]error
+	silentConn int // connection on which PINGREQ is no longer answered (-1 none)
+	silentFrom int // number of PINGREQs answered on it before going silent
+	pingsSeen  []int
+	silentAt   []int64
 	dialTimes  []int64
 	dialOK     []bool
 	stamp      bool // record virtual times
@@ -145,8 +153,21 @@ func (b *vbroker) DialContext(ctx context.Context) (*BaseClient, error) {
 	b.dialOK = append(b.dialOK, true)
 	b.accepted = append(b.accepted, false)
 	b.ev("dial(c" + itoa(n) + ")")
+	cli := &BaseClient{Transport: c}
+	b.clients = append(b.clients, cli)
+	b.states = append(b.states, nil)
+	b.stateErrs = append(b.stateErrs, nil)
+	b.pingsSeen = append(b.pingsSeen, 0)
+	b.silentAt = append(b.silentAt, -1)
+	cli.ConnState = func(s ConnState, err error) {
+		verifLock()
+		b.states[n] = append(b.states[n], s)
+		b.stateErrs[n] = append(b.stateErrs[n], err)
+		verifUnlock()
+		verifEvent("c" + itoa(n) + ":state(" + s.String() + ")")
+	}
 	verifUnlock()
-	return &BaseClient{Transport: c}, nil
+	return cli, nil
 }
 
 func (b *vbroker) tagOfID(conn int, id uint16) int {
@@ -402,6 +423,16 @@ func (b *vbroker) process(c *vconn, p refPacket, tag int, fault int) (answer []b
 		if b.silentAll {
 			return nil, 0
 		}
+		if b.silentArmed && b.silentConn == c.id {
+			if b.pingsSeen[c.id] >= b.silentFrom {
+				if b.silentAt[c.id] < 0 {
+					b.silentAt[c.id] = verifNow()
+					b.ev("c" + itoa(c.id) + ":silent")
+				}
+				return nil, 0
+			}
+		}
+		b.pingsSeen[c.id]++
 		return []byte{0xD0, 0}, 13
 	case 14:
 		c.eof = true
